@@ -606,3 +606,93 @@ def gen_total(seed, tier):
         b.ops.append({"op": "renderall", "t": 1})
         out.append(b.ops)
     return out
+
+
+CREATORS = [("core", None), ("csv", None), ("html", None), ("json", None), ("markdown", None), ("texttable", None),
+            ("auto", "csv"), ("auto", "HTML"), ("auto", "json.x"), ("auto", "markdown"), ("auto", "texttable"),
+            ("auto", "texttable.ascii-simple"), ("auto", "utf8-light"), ("auto", "none")]
+AUTO_STYLES = ["csv", "CSV", "csv.foo", "html", "Html.a.b", "json", "markdown", "MARKDOWN", "texttable", "texttable.utf8-double",
+               "ascii-simple", "utf8-light-curved", "none", "texttable.none", "utf8-heavy"]
+WRAP_KINDS = ["text", "csv", "html", "json", "md"]
+
+
+def render_ops(rng, b, nwr, count, formats=WRAP_KINDS):
+    """Random render calls: through wrappers' methods, package functions (on the table or a wrapper), auto."""
+    for _ in range(count):
+        r = rng.random()
+        if r < 0.45 and nwr:
+            b.ops.append({"op": "render", "w": rng.randint(1, nwr), "entry": rng.choice(["Render", "RenderTo"])})
+        elif r < 0.75:
+            op = {"op": "render", "pkg": rng.choice(formats), "entry": rng.choice(["Render", "RenderTo"])}
+            if nwr and rng.random() < 0.5:
+                op["ow"] = rng.randint(1, nwr)
+            else:
+                op["t"] = 1
+            b.ops.append(op)
+        else:
+            op = {"op": "render", "auto": rng.choice(AUTO_STYLES), "entry": rng.choice(["Render", "RenderTo"])}
+            if nwr and rng.random() < 0.5:
+                op["ow"] = rng.randint(1, nwr)
+            else:
+                op["t"] = 1
+            b.ops.append(op)
+
+
+def gen_paths(seed, tier):
+    """C10: one random content built through a random creator, wrapped by random nestings, rendered every way."""
+    rng = random.Random(seed * 982451653 + 10)
+    n = 300 if tier == "quick" else 8000
+    out = []
+    for i in range(n):
+        via, style = rng.choice(CREATORS)
+        b = GridBuilder(rng, ntables=0)
+        b.new_table(via, style)
+        nwr = 0 if via == "core" else 1
+        ncols = build_table(rng, b, rng.randint(1, 4), rng.randint(0, 5), lambda: rnd_text_item(rng, sized=0.1))
+        if rng.random() < 0.4:
+            for c in range(0, ncols + 1):
+                if rng.random() < 0.4:
+                    b.ops.append({"op": "setprop", "owner": {"kind": "column", "t": 1, "n": c}, "k": "k_align", "v": rng.choice(["vL", "vR", "vC"])})
+        for _ in range(rng.randint(0, 3)):
+            over = {"w": rng.randint(1, nwr)} if nwr and rng.random() < 0.7 else {"t": 1}
+            if rng.random() < 0.2:
+                b.ops.append({"op": "wrap", "kind": "auto", "style": rng.choice(AUTO_STYLES), "over": over})
+            else:
+                b.ops.append({"op": "wrap", "kind": rng.choice(WRAP_KINDS), "over": over})
+            nwr += 1
+        render_ops(rng, b, nwr, rng.randint(1, 4))
+        out.append(b.ops)
+    return out
+
+
+def gen_repeat(seed, tier):
+    """C14: random build, then 3-12 renders in random order of formats, decorations and wrappers
+    (the same wrapper again, a fresh one, one nested around another)."""
+    rng = random.Random(seed * 472882027 + 14)
+    n = 200 if tier == "quick" else 5000
+    out = []
+    for i in range(n):
+        b = GridBuilder(rng)
+        ncols = build_table(rng, b, rng.randint(1, 4), rng.randint(0, 5), lambda: rnd_text_item(rng, sized=0.1))
+        for c in range(0, ncols + 1):
+            if rng.random() < 0.25:
+                b.ops.append({"op": "setprop", "owner": {"kind": "column", "t": 1, "n": c}, "k": rng.choice(["k_align", "k_int", "k_str"]),
+                              "v": rng.choice(["vL", "vR", "vC"])})
+        if rng.random() < 0.3:
+            b.ops.append({"op": "tblerr", "t": 1, "e": "E1"})
+        nwr = 0
+        text_wr = []
+        for _ in range(rng.randint(3, 12)):
+            r = rng.random()
+            if r < 0.35 or nwr == 0:
+                over = {"w": rng.randint(1, nwr)} if nwr and rng.random() < 0.4 else {"t": 1}
+                k = rng.choice(WRAP_KINDS)
+                b.ops.append({"op": "wrap", "kind": k, "over": over})
+                nwr += 1
+                if k == "text":
+                    text_wr.append(nwr)
+            elif r < 0.5 and text_wr:
+                b.ops.append(rnd_decor_op(rng, rng.choice(text_wr)))
+            render_ops(rng, b, nwr, 1)
+        out.append(b.ops)
+    return out
